@@ -21,6 +21,7 @@ CLI:  python3 tools/cv/srctie.py [--repo /repo] [--write] [--outdir DIR] [C17 C2
       (no --write: prints a diff summary against the committed copies; --outdir writes there instead of lean/)
 """
 import os
+import re
 import sys
 
 sys.path.insert(0, os.path.dirname(os.path.dirname(os.path.abspath(__file__))))
@@ -310,7 +311,19 @@ def wire(mod_globals, pid):
     g["PROOF_MODULES"] = list(g.get("PROOF_MODULES", [])) + ["Compute.Props.SrcTie" + pid]
     g["REQUIRED_THEOREMS"] = list(g.get("REQUIRED_THEOREMS", [])) + REQUIRED[pid]
     old = g.get("EXTRACT") or (lambda repo: {})
-    g["EXTRACT"] = lambda repo: {**old(repo), **extract_for(pid, repo)}
+    def _extract(repo):
+        from . import common as _c
+        files, notes = {}, []
+        for fn in (old, lambda r: extract_for(pid, r)):
+            try:
+                files.update(fn(repo))
+            except _c.SourceDrift as e:
+                files.update(e.files)
+                notes.append(str(e))
+        if notes:
+            raise _c.SourceDrift(" || ".join(notes), files)
+        return files
+    g["EXTRACT"] = _extract
 
 
 # --------------------------------------------------------------------------------------------------- driver
@@ -331,17 +344,43 @@ def extract_for(pid, repo):
     for o in cfg.get("opens", []):
         out.append("open %s\n" % o)
     out.append("variable %s\n\n" % cfg["variables"])
+    # blocks of the committed copy, used when a function has left the translated subset (the definition then stays
+    # the last successfully translated one, the SrcTie theorem keeps building, and the drift is reported as a note)
+    committed = {}
+    cpath = os.path.join(os.path.dirname(os.path.dirname(os.path.dirname(os.path.abspath(__file__)))), "lean",
+                         "Compute", "Generated", "Src%s.lean" % pid)
+    if os.path.exists(cpath):
+        cur = None
+        for line in open(cpath).read().splitlines(keepends=True):
+            m = re.match(r"-- (\S+) :: (.+?)\s*(\[STALE.*)?$", line)
+            if m and m.group(1).endswith(".rs"):
+                cur = (m.group(1), m.group(2).strip())
+                committed[cur] = ""
+            elif line.startswith("end Cv.Src."):
+                cur = None
+            elif cur is not None:
+                committed[cur] += line
+    notes = []
     for rel, path, okw in cfg["functions"]:
         full = os.path.join(repo, rel)
-        if rel not in sources:
-            sources[rel] = rs2lean.Source(open(full).read())
         try:
+            if rel not in sources:
+                sources[rel] = rs2lean.Source(open(full).read())
             lean = rs2lean.translate(sources[rel], path, Opts(**okw))
-        except (rs2lean.Unsupported, rs2lean.NotFound) as ex:
-            raise type(ex)("%s::%s: %s" % (rel, path, ex))
-        out.append("-- %s :: %s\n%s\n" % (rel, path, lean))
+            out.append("-- %s :: %s\n%s\n" % (rel, path, lean))
+        except (rs2lean.Unsupported, rs2lean.NotFound, OSError) as ex:
+            key = (rel, path)
+            if key not in committed:
+                raise type(ex)("%s::%s: %s" % (rel, path, ex))
+            notes.append("%s::%s left the translated Rust subset (%s: %s); the last translated definition is kept" % (
+                rel, path, type(ex).__name__, ex))
+            out.append("-- %s :: %s\n%s" % (rel, path, committed[key]))
     out.append("end Cv.Src.%s\n" % pid)
-    return {"Compute/Generated/Src%s.lean" % pid: "".join(out)}
+    files = {"Compute/Generated/Src%s.lean" % pid: "".join(out)}
+    if notes:
+        from . import common as _c
+        raise _c.SourceDrift(" || ".join(notes), files)
+    return files
 
 
 def EXTRACT_SRC(repo):
